@@ -8,7 +8,9 @@ parse_model(check_syntax=True) against the model run with the oracle `chk` tabul
 Component level (the hand-written stand-ins for Python's regex engine are compared with the regexes themselves):
 K_lex   Lex.toks vs term_re.finditer (span, kind, name, index of every match) — every string of every shard and every script;
 K_eqre  Split.stmt_ok vs equation_re.search(...) is not None — likewise;
-K_split Split.split_M vs split_equations_iter (every statement and the exception that ends the iteration) — every script.
+K_split Split.split_M vs split_equations_iter (every statement and the exception that ends the iteration) — every script;
+K_emit  ParseModel.n_emitted (the counting function of the statement-count theorems) vs the number of equations / verbatim blocks
+        build_model_definition really emits (converter calls) — every accepted script.
 The oracle is the property's text evaluated on the real code only (see `judge`)."""
 import itertools
 import json
@@ -25,7 +27,8 @@ MODEL_FILES = ['Parser/PyStr.v', 'Parser/Lex.v', 'Parser/Format.v', 'Parser/Symb
                'Parser/ParseEq.v', 'Parser/ParseModel.v', 'Extract/Parser/ExtractParser.v']
 K_NAME = ('K_parse (extracted Parser.ParseModel.parse_model_M vs fsic.parse_model: outcome class + every Symbol field) + component level: '
           'K_lex (Lex.toks vs term_re.finditer: every span, kind, name, index), K_eqre (Split.stmt_ok vs equation_re.search), '
-          'K_split (Split.split_M vs split_equations_iter: every statement + the closing exception)')
+          'K_split (Split.split_M vs split_equations_iter: every statement + the closing exception), '
+          'K_emit (ParseModel.n_emitted vs the number of converter calls of build_model_definition)')
 RULE = ('exhaustive: every string up to length 4 (quick) / 5 (thorough) over the 30-symbol alphabet a Y i f s n 1 _ blank newline '
         '= + - * / . , ( ) [ ] { } < > ` # \' " e-acute, in shards of 900 strings (one case = one shard, so `evaluations` counts '
         'shards: multiply by 900), plus a random slice of the next length; plus C01-grammar scripts and their mutations (token '
@@ -287,6 +290,14 @@ def observe(s, light=False):
         o['nc'] = 'E:' + type(e).__name__
         if type(e).__name__ not in OWN:
             o['nc_site'] = _site(e)
+    if not light and o['nc'].startswith('O:'):
+        # what build_model_definition emits for that symbol list (K_emit: ParseModel.n_emitted)
+        calls = []
+        try:
+            fsic.parser.build_model_definition(fsic.parse_model(s, check_syntax=False), converter=lambda x: calls.append(1) or 'pass')
+            o['emit_nc'] = str(len(calls))
+        except BaseException as e:      # noqa: BLE001
+            o['emit_nc'] = 'B:' + type(e).__name__
     # (1b) no state between calls: what a caller does with the lists it was handed must not change a later parse
     if not light:
         try:
@@ -581,7 +592,8 @@ def correspond(cases, obs, tag, tier):
             return [], errors
     # --- single scripts: the components
     for cmd, key, what, filt in (('T', 'lex', 'term_re.finditer', lex_finding_class), ('K', 'eqre', 'equation_re.search', None),
-                                 ('S', 'split', 'split_equations_iter', in_finding_class)):
+                                 ('S', 'split', 'split_equations_iter', in_finding_class),
+                                 ('N', 'emit_nc', 'build_model_definition: number of equations / blocks emitted', in_finding_class)):
         idx = [i for i in s_idx if key in obs[i]]
         ans, errs = pc.run_driver(['%s %s' % (cmd, pc.hx(cases[i]['s'])) for i in idx])
         if errs:
@@ -590,6 +602,8 @@ def correspond(cases, obs, tag, tier):
             if cmd == 'S':      # S:<hex statement>,<codes…>;…|<exception or ->
                 body, err = m[2:].rsplit('|', 1)
                 m = ';'.join(st.split(',')[0] for st in body.split(';') if st) + '|' + err
+            if m == 'U' or (cmd == 'N' and obs[i][key].startswith('B:')):
+                continue
             if m != obs[i][key] and not (filt is not None and filt(cases[i]['s'])):
                 bad.append(i)
                 _K_DETAIL.setdefault(lib.jhash(cases[i]), []).append({'s': cases[i]['s'], 'impl': obs[i][key], 'model': m, 'component': what})
